@@ -508,9 +508,10 @@ def load(mode='sym'):
     if mode == 'sym':
         for k in [k for k in sys.modules if k == 'biom' or k.startswith('biom.')]:
             del sys.modules[k]
-        from .models import h5, stats
+        from .models import h5, stats, pandas_stub
         h5.install()
         stats.install()
+        pandas_stub.install()
         sys.meta_path.insert(0, _Finder())
         import biom.table as T
         import biom.err as E
